@@ -32,6 +32,7 @@ type recApp struct {
 	hgtLog  []int64  // height reported after each commit
 	retainK int64    // >= 0: Commit answers RetainHeight = height + 1 - retainK (the node prunes below it); -1: none
 	hasRet  bool
+	emptyHash bool // the application reports a zero-length app hash at every height (legal: the hash is opaque)
 	ih      int64    // InitialHeight (the first block's height); 0/1 = 1
 	pend    *pendExec
 	journal []string
@@ -196,6 +197,9 @@ func (a *recApp) Rollback(j int) {
 func (a *recApp) Info(req abci.RequestInfo) abci.ResponseInfo {
 	a.mu.Lock()
 	defer a.mu.Unlock()
+	if a.emptyHash {
+		return abci.ResponseInfo{LastBlockHeight: a.height}
+	}
 	return abci.ResponseInfo{LastBlockHeight: a.height, LastBlockAppHash: a.hash}
 }
 
@@ -270,6 +274,9 @@ func (a *recApp) Commit() abci.ResponseCommit {
 	defer a.mu.Unlock()
 	a.record("C")
 	res := abci.ResponseCommit{Data: a.hash}
+	if a.emptyHash {
+		res.Data = nil
+	}
 	if a.hasRet && a.height+1-a.retainK >= 1 {
 		res.RetainHeight = a.height + 1 - a.retainK
 	}
